@@ -376,6 +376,25 @@ def rule_half(ctx):
         # diff > T (d far in the past with this year) => actual date is next year; diff < -T (d far in the future) => previous year
         ctx.ob("C07.HALF", n, f"branch `diff {op} {'-' if neg else ''}T` moves the year by {delta} (must be {want})", want is not None and delta == want,
                f"year inference: branch `diff {op} {'-' if neg else ''}T` moves the year by {delta}, must be {want}", construct=f"half:sign {op}{'-' if neg else ''}T->{delta}")
+    # both date forms are accepted whatever the day: every year-less strptime sits in a try whose ValueError handler parses the year form
+    # (the server switches to "%b %d  %Y" for anything outside the window, 29 February included)
+    def fmt_of(c):
+        return next((a.value for a in c.args[1:2] if isinstance(a, ast.Constant) and isinstance(a.value, str)), None)
+    sp = [c for c in walk_no_nested(pd) if isinstance(c, ast.Call) and (dotted(c.func) or "").endswith("strptime")]
+    year_less = [c for c in sp if fmt_of(c) is not None and "%H" in fmt_of(c)]
+    for c in year_less:
+        rescued = False
+        child, par = c, p.parent.get(c)
+        while par is not None and par is not pd:
+            if isinstance(par, ast.Try) and any(child is s_ or any(child is x for x in ast.walk(s_)) for s_ in par.body):
+                for h in par.handlers:
+                    if h.type is None or any(p.issub("ValueError", hn) for hn in hnames(p, h)):
+                        if any(isinstance(x, ast.Call) and (dotted(x.func) or "").endswith("strptime") and fmt_of(x) is not None and "%Y" in fmt_of(x) and "%H" not in fmt_of(x) for s_ in h.body for x in ast.walk(s_)):
+                            rescued = True
+            child, par = par, p.parent.get(par)
+        ctx.ob("C07.HALF", c, f"year-less parse `{fmt_of(c)}` falls back to the year form on ValueError", rescued,
+               f"the year-less parse `{fmt_of(c)}` is not covered by the year-form fallback: a date the server wrote in the year form (outside the half-year window) "
+               "on this branch makes the whole LIST line unparsable", construct=f"half:no year-form fallback for {fmt_of(c)}")
     # the shared constant itself
     for mod in ("common.py",):
         v = p.module_const(mod, "HALF_OF_YEAR_IN_SECONDS")
@@ -433,4 +452,14 @@ def _dot_set(n):
     return {".", ".."} <= v
 
 
-RULES = [rule_fact, rule_keys, rule_fmt, rule_half, rule_all]
+def rule_live(ctx):
+    from .c18 import rule_pure, rule_state
+    from .c17 import rule_fresh
+    ctx.rule("C07.LIVE", "what a listing or stat reports is read from the backend's tree at that moment: the in-memory backend's queries neither remember nor change anything "
+                         "(shared with C18.PURE / C18.STATE), and the fact dictionary of an entry is built fresh for that entry (no mutable default shared between entries)")
+    ctx.borrow(rule_pure, {"C18.PURE": "C07.LIVE"})
+    ctx.borrow(rule_state, {"C18.STATE": "C07.LIVE"}, only=lambda fn: fn.startswith("MemoryPathIO."))
+    ctx.borrow(rule_fresh, {"C17.FRESH": "C07.LIVE"}, only=lambda fn: "mlsx" in fn or "build_list" in fn or "stat" in fn)
+
+
+RULES = [rule_fact, rule_keys, rule_fmt, rule_half, rule_all, rule_live]
